@@ -155,7 +155,7 @@ class SymInterp:
                     sc[st.name] = (lambda fi: (lambda *a, **k: self.call_function(fi, list(a), k)))(fi)
         return sc
 
-    def new_env(self, fi, **names):
+    def new_env(self, fi, /, **names):
         """environment for interpreting statements of fi one by one: module-level names of fi's module (helpers, constants) behind the given local names"""
         env = Scope(_Fallback(self.module_scope(fi.rel), self.builtins, self), ())
         for k, v in names.items():
@@ -397,6 +397,11 @@ class SymInterp:
                     return getattr(v, e.attr)
                 if e.attr in type(v).__dict__ and not callable(type(v).__dict__[e.attr]):
                     return type(v).__dict__[e.attr]
+                if self.resolver is not None:
+                    # a property of the source class of the stand-in
+                    pf = self.resolver(v, e.attr)
+                    if pf is not None and any(unparse(d) in ("property", "cached_property", "functools.cached_property") for d in getattr(pf.node, "decorator_list", [])):
+                        return self.call_function(pf, [v])
                 if callable(getattr(type(v), "symattr", None)):
                     return v.symattr(e.attr)
                 raise AnalysisError(f"symbolic object {v!r} has no attribute {e.attr}")
